@@ -12,6 +12,7 @@ import (
 	"net"
 	"os"
 	"path/filepath"
+	"reflect"
 	"sort"
 	"strings"
 	"syscall"
@@ -322,6 +323,25 @@ func lenClass(n, io int) string {
 
 // ---------------- C15 ----------------
 
+// [0,1,2,5,6] -> "0-2,5-6" (as the driver prints it)
+func showRuns(l []int) string {
+	if len(l) == 0 {
+		return "-"
+	}
+	var out []string
+	a, b := l[0], l[0]
+	for _, x := range l[1:] {
+		if x == b+1 {
+			b = x
+			continue
+		}
+		out = append(out, fmt.Sprintf("%d-%d", a, b))
+		a, b = x, x
+	}
+	out = append(out, fmt.Sprintf("%d-%d", a, b))
+	return strings.Join(out, ",")
+}
+
 func mkNames(r *rand.Rand, n int) []string {
 	names := map[string]bool{}
 	for len(names) < n {
@@ -453,6 +473,49 @@ func genC15(c *Ctx) {
 				es[j] = fmt.Sprint(x)
 			}
 			endsTxt := showList(es)
+			// the client's Readdir(0) against the model of its loop: from a fresh open, and after
+			// one File.Read of a random size moved the offset to an entry boundary
+			if len(endsTxt) <= 60000 {
+				where := map[string]int{}
+				for j, nm := range seen {
+					where[nm] = j
+				}
+				for _, first := range []int{0, 1} {
+					f3, err := e.c.FOpen("d", g.OREAD)
+					if err != nil {
+						continue
+					}
+					start := 0
+					if first == 1 {
+						if largest == 0 {
+							f3.Close()
+							continue
+						}
+						nb, _ := f3.Read(make([]byte, largest+(i*7919)%(2*largest+1))) // not from r: the probes below keep their counts
+						start = nb
+					}
+					cnt := int(e.c.Msize) - g.IOHDRSZ
+					if int(f3.Fid.Iounit) < cnt {
+						cnt = int(f3.Fid.Iounit)
+					}
+					ds, err := f3.Readdir(0)
+					obs := "error"
+					if err == nil {
+						var pos []int
+						for _, d := range ds {
+							j, ok := where[d.Name]
+							if !ok {
+								j = 999999
+							}
+							pos = append(pos, j)
+						}
+						obs = fmt.Sprintf("ok %s off=%d", showRuns(pos), reflect.ValueOf(f3).Elem().FieldByName("offset").Uint())
+					}
+					c.count(fmt.Sprintf("readdir0:start=%s", map[bool]string{true: "0", false: "mid"}[start == 0]))
+					c.emit(fmt.Sprintf("readdir0 %s %d %d", endsTxt, cnt, start), obs, true)
+					f3.Close()
+				}
+			}
 			probe := func(off uint64, cnt uint32, kind string) {
 				if len(endsTxt) > 60000 {
 					return
@@ -481,6 +544,9 @@ func genC15(c *Ctx) {
 					if uint64(x) == off {
 						isEnd = true
 					}
+				}
+				if isEnd && err != nil && int(cnt) >= largest && largest > 0 {
+					c.oracleFail("C15/error-with-sufficient-count", fmt.Sprintf("read at %d count %d (largest entry %d): %v", off, cnt, largest, err), line)
 				}
 				if isEnd && err == nil {
 					endAt := func(v int) bool {
